@@ -152,6 +152,19 @@ def rule_flags(ctx):
     ctx.units["C18.default_full"] = [x.name if not isinstance(x, list) else [y.name for y in x] for x in (full or [])]
 
 
+def rule_composition(ctx, rule):
+    """shared with C06 / C07: the compositions the library publishes and builds are free of duplicated layers and of
+    helpers that corrupt their own constants"""
+    from ..stackmodel import composition_problems
+    probs, n = composition_problems(ctx.repo)
+    ctx.units[rule + "_compositions"] = n
+    for rel, fn, line, construct, msg in probs:
+        ctx.violate(rule, where(rel, fn, line), construct, msg)
+    if not probs:
+        ctx.hold(rule, where(YS, "YowStackBuilder", None), "published and built compositions", "%d compositions: no layer class twice, helpers leave their constants alone" % n)
+    return not probs
+
+
 def rule_wire(ctx):
     repo = ctx.repo
     st = repo.cls(YS, "YowStack")
@@ -471,9 +484,10 @@ def run(ctx):
     ctx.rule("C18.mirror", "emit/broadcast siblings mirror each other", floor=4)
     ctx.rule("C18.stop", "stop-on-true, detached deferral, loop", floor=10)
     ctx.rule("C18.par", "group method substitution and interface lookup", floor=8)
-    rule_bind(ctx)
-    rule_flags(ctx)
-    rule_wire(ctx)
-    rule_mirror(ctx)
-    rule_stop(ctx)
-    rule_par(ctx)
+    ctx.guarded("C18.bind", rule_bind, ctx)
+    ctx.guarded("C18.composition", rule_composition, ctx, "C18.flags")
+    ctx.guarded("C18.flags", rule_flags, ctx)
+    ctx.guarded("C18.wire", rule_wire, ctx)
+    ctx.guarded("C18.mirror", rule_mirror, ctx)
+    ctx.guarded("C18.stop", rule_stop, ctx)
+    ctx.guarded("C18.par", rule_par, ctx)
